@@ -180,6 +180,64 @@ def py_static(src, func):
     return {"error": "nofunc"}
 
 
+# ---------------------------------------------------------------------------------------------
+# op "trace": mini-language programs (coq/Interp/Closure.v); `tr` is a native tracer, the observation is the log and the
+# module's final global table in insertion order
+# ---------------------------------------------------------------------------------------------
+def _tracer():
+    log = []
+
+    def tr(v):
+        log.append(v if isinstance(v, int) and not isinstance(v, bool) else None)
+        return v
+
+    return log, tr
+
+
+def _obs_globals(table):
+    out = []
+    for k, v in table.items():
+        if k in ("tr", "__builtins__") or k.startswith("__"):
+            continue
+        if hasattr(v, "get") and type(v).__name__ == "EvalLocalVar":
+            v = v.get()
+        if isinstance(v, bool):
+            out.append([k, "other"])
+        elif isinstance(v, int):
+            out.append([k, v])
+        elif v is None:
+            out.append([k, None])
+        elif callable(v):
+            out.append([k, "fn"])
+        else:
+            out.append([k, "other"])
+    return out
+
+
+async def trace_case(new_interp, src):
+    res = {}
+    log, tr = _tracer()
+    a, _gc = new_interp("pvc03t", {"tr": tr})
+    try:
+        a.parse(src)
+        await a.eval()
+        res["ps"] = {"kind": "ok", "trace": list(log), "globals": _obs_globals(a.global_sym_table)}
+    except RecursionError:
+        res["ps"] = {"kind": "exc", "type": "RecursionError"}
+    except Exception as e:  # pylint: disable=broad-except
+        res["ps"] = exc_obs(e)
+    log, tr = _tracer()
+    g = {"tr": tr}
+    try:
+        exec(compile(src, "<pv>", "exec"), g)  # pylint: disable=exec-used
+        res["py"] = {"kind": "ok", "trace": list(log), "globals": _obs_globals(g)}
+    except RecursionError:
+        res["py"] = {"kind": "exc", "type": "RecursionError"}
+    except Exception as e:  # pylint: disable=broad-except
+        res["py"] = exc_obs(e)
+    return res
+
+
 async def main():
     from pytest_homeassistant_custom_component.common import async_test_home_assistant
 
@@ -200,6 +258,9 @@ async def main():
             pdir = hass.config.path("pyscript")
             for case in req["cases"]:
                 src = case["src"]
+                if req["op"] == "trace":
+                    out.append(await trace_case(new_interp, src))
+                    continue
                 if bool(case.get("legacy", False)) != legacy:
                     # switch the decorator subsystem: legacy_decorators true = registry empty (trigger.py path)
                     legacy = bool(case.get("legacy", False))
